@@ -206,6 +206,7 @@ Print Assumptions method_names_partial.
 
 Theorem undisplayed_are_delta_brotli : map m_name undisplayed = [s2z "DELTA"; s2z "Brotli"].
 Proof. exact undisplayed_methods. Qed.
+Print Assumptions undisplayed_are_delta_brotli.
 
 (* ---- needs_password ---- *)
 Theorem needs_password_iff : forall (pw : bool) (h : header) (b : bool),
